@@ -78,6 +78,10 @@ func (delegWithdrawRewardsTx) Validate(ctx *action.Context, signedTx action.Sign
 	if currency.Name != withdraw.Amount.Currency {
 		return false, errors.Wrap(action.ErrInvalidAmount, withdraw.Amount.String())
 	}
+	// the amount must be a valid, non-negative amount of that currency
+	if !withdraw.Amount.IsValid(ctx.Currencies) {
+		return false, errors.Wrap(action.ErrInvalidAmount, withdraw.Amount.String())
+	}
 
 	err = withdraw.Delegator.Err()
 	if err != nil {
